@@ -7,7 +7,7 @@ export PYTHONHASHSEED=0
 ./tools/coqproject.sh
 cd coq
 coq_makefile -f _CoqProject -o Makefile
-timeout 5400 make -k -j16 || echo "setup: WARNING some Coq files failed to build (each check rebuilds and reports its own target)"
+timeout 5400 make -k -j16 COQC="timeout 900 coqc" || echo "setup: WARNING some Coq files failed to build (each check rebuilds and reports its own target)"
 cd ..
 # warm the numba cache used by the worker processes (outside /repo)
 /venv/bin/python -m harness.warm || true
